@@ -7,6 +7,7 @@ package main
 import (
 	"encoding/json"
 	"fmt"
+	"math"
 	"net/url"
 	"reflect"
 	"strings"
@@ -623,9 +624,24 @@ func fetchResult(name string, budget int) (res result, pan string) {
 	return result{Doc: string(b), Src: s}, ""
 }
 
-func runHistories(r *ev.Report, depth int) {
+// runHistories: budget -1 stands for the largest allowance there is ("follow whatever comes").
+func runHistories(r *ev.Report, depth int, budget int) {
 	names := buildHistoryWorld()
-	budget := 2
+	if budget < 0 || budget > 1000 {
+		// without a limit a redirect cycle is followed for ever, as asked: the names that run
+		// into the limit of 40 are left out of these runs
+		var finite []string
+		for _, n := range names {
+			jtp.VerifSetCacheSize(128)
+			jtp.VerifPurgeCache()
+			_, _, err, _ := fetchVia("jtp.Get", hist[n], 40)
+			if err == nil || !strings.Contains(err.Error(), "redirect") {
+				finite = append(finite, n)
+			}
+		}
+		jtp.VerifPurgeCache()
+		names = finite
+	}
 	// cold results
 	cold := map[string]result{}
 	for _, n := range names {
@@ -888,7 +904,11 @@ func main() {
 	if r.Thorough() {
 		depth = 5
 	}
-	runHistories(r, depth)
+	runHistories(r, depth, 2)
+	// the same histories with no limit on redirects worth the name (the largest unsigned
+	// number, and the largest signed one): allowances are numbers too
+	runHistories(r, 2, -1)
+	runHistories(r, 2, math.MaxInt)
 	r.Sample(histCase{1, []string{"L3", "L1", "U2"}, 2})
 	r.Traces = r.Transitions
 	r.Extra["history_depth"] = depth
